@@ -59,6 +59,9 @@ structure Act where
   ret    : Val
   raises : Option Nat := none
   sends  : List EventId := []
+  /-- an *event* used as a callback (`before="other_event"`, `dispatcher.event_method`): the callback hands back
+  whatever its last nested send returned instead of `ret` -/
+  retSend : Bool := false
 deriving Repr, Inhabited
 
 inductive Entry
@@ -116,6 +119,8 @@ structure Machine where
   allow  : Bool := false
   /-- `start_value` -/
   startValue : Option Val := none
+  /-- an event's result seen as a value (by a callback that hands it back): `None`, the value itself, the list -/
+  resVal : Res → Val := fun _ => 0
 
 structure Cfg where
   /-- the model field -/
